@@ -276,6 +276,8 @@ struct QueueEngine : Engine
 		size_t ri = size_t(u / uint64_t(NK)); int k0 = int(u % uint64_t(NK));
 		Route const& r = routes[ri];
 		int maxlen = L; if (r.q.size() > 1 || r.reflect) maxlen = std::min(L, 3);
+		// thorough: sequences of 4 packets use the first 5 packet kinds only (7 kinds up to length 3)
+		if (L >= 4 && k0 >= 5) maxlen = std::min(maxlen, 3);
 		// odometer over (kind, gap-index) for packets 1..len-1
 		for (int len = 1; len <= maxlen; ++len) {
 			std::vector<int> kinds(size_t(len), 0), gaps(size_t(len), 0); kinds[0] = k0;
@@ -300,7 +302,7 @@ struct QueueEngine : Engine
 				int i = len - 1;
 				for (; i >= 1; --i) {
 					if (++gaps[size_t(i)] < 7) break; gaps[size_t(i)] = 0;
-					if (++kinds[size_t(i)] < NK) break; kinds[size_t(i)] = 0;
+					if (++kinds[size_t(i)] < (len >= 4 ? 5 : NK)) break; kinds[size_t(i)] = 0;
 				}
 				if (i < 1) break;
 			}
